@@ -59,6 +59,13 @@ Theorem C19_large_huge_fit : huge_fit_full.
 Proof. exact huge_fit. Qed.
 Print Assumptions C19_large_huge_fit.
 
+(* the scraped flag HUGE_OVERFLOW_GUARD is needed: in the refused range, huge_request's other branch (no guard) maps fewer
+   bytes than requested (psh = 12, size = 2^64-1: one page) *)
+Theorem C19_huge_guard_needed : exists psh size, page_shift_ok psh /\ LARGE_SIZE_LIMIT < size < W64 /\
+  W64 - 1 - SPAN_HEADER_SIZE - 2 ^ psh < size /\ usable_size psh (BHuge (huge_pages psh size)) < size.
+Proof. exact huge_guard_needed. Qed.
+Print Assumptions C19_huge_guard_needed.
+
 (* realloc as L_alloc issues it: a block kept in place is large enough *)
 Theorem C19_realloc_inplace_fits : forall psh b size oldsize, page_shift_ok psh -> valid_block psh b ->
   0 <= size -> size + SPAN_HEADER_SIZE < W64 ->
@@ -250,3 +257,47 @@ Print Assumptions C19_combined_history_small_medium.
 Theorem C19_combined_empty : cinv (mk_cstate heap_empty sempty).
 Proof. exact cinv_empty. Qed.
 Print Assumptions C19_combined_empty.
+
+(* ---- the open outcomes of the combined machine (audit 6.3 item 5) ----
+   CSupplyFailed on an allocation is a statement about the HISTORY, not the allocator: the history named a supply
+   the span layer does not have.  supply_ok: a fresh mapping whose range overlaps no live mapping (the operating
+   system's answer; out of memory = no such base), a reserve with at least one span, or a cached one-span object at
+   the named start.  With an available supply an allocation never answers CSupplyFailed, and a fresh mapping is
+   always available as long as the address space has room (some base is free). *)
+Theorem C19_combined_supply_failed_only_without_supply : forall psh mc st size w, supply_ok mc (cs_spans st) w ->
+  cstep psh mc st (CAllocSM size w) <> CSupplyFailed.
+Proof. exact cstep_alloc_supply. Qed.
+Print Assumptions C19_combined_supply_failed_only_without_supply.
+
+Theorem C19_combined_fresh_mapping_is_supply : forall mc ss, exists base, supply_ok mc ss (FromMap base).
+Proof. exact fresh_base_is_supply. Qed.
+Print Assumptions C19_combined_fresh_mapping_is_supply.
+
+(* CBadCall.  linv st lv: every valid class satisfies the class machine's invariant (class_inv, the invariant of
+   C19_span_machine_history) against its ghost list of live blocks lv c.  hist_ok: sizes are small/medium and every
+   free names a block that is live at that point of the history (the caller's obligation: no double free, no foreign
+   pointer; ex_double_free_invalid shows a repeated free is outside hist_ok).  Valid histories never reach CBadCall -
+   neither the heap model's own CErrCorrupt/CNull/CErrUnmodelled nor CErrBadFree - from any state satisfying linv
+   (the empty state does). *)
+Theorem C19_combined_history_no_bad_call : forall psh mc ops st lv, linv st lv -> hist_ok psh mc st lv ops ->
+  crun psh mc st ops <> CBadCall.
+Proof. exact combined_history_no_bad_call. Qed.
+Print Assumptions C19_combined_history_no_bad_call.
+
+Theorem C19_combined_ghost_empty : linv (mk_cstate heap_empty sempty) (fun _ => []).
+Proof. exact linv_empty. Qed.
+Print Assumptions C19_combined_ghost_empty.
+
+(* the combined machine projects onto the L_alloc history machine: every successful combined history IS the lrun
+   history of the corresponding L_alloc calls (calls_of: ptr = NULL, nsize = size, the span oracle answering with
+   the start of the span the span layer supplied; or ptr = block, nsize = 0), so the heap component of every state
+   reached from the empty state satisfies the ownership invariant of C19_lalloc_history_ownership *)
+Theorem C19_combined_projects_to_lalloc : forall psh mc ops st st' ret, Forall op_ok1 ops ->
+  crun psh mc st ops = CDone st' ret -> lrun psh (cs_heap st) (calls_of psh mc st ops) = Some (cs_heap st').
+Proof. exact crun_projects. Qed.
+Print Assumptions C19_combined_projects_to_lalloc.
+
+Theorem C19_combined_history_ownership : forall psh mc ops st' ret, Forall op_ok1 ops ->
+  crun psh mc (mk_cstate heap_empty sempty) ops = CDone st' ret -> own_ok psh (cs_heap st').
+Proof. exact combined_history_ownership. Qed.
+Print Assumptions C19_combined_history_ownership.
